@@ -99,6 +99,8 @@ def _own_walk(fn):
         stack.extend(ast.iter_child_nodes(n))
 
 
+METHOD_PARAMS = {'groupby': 'by', 'sort_values': 'by', 'to_csv': 'path_or_buf', 'astype': 'dtype', 'drop_duplicates': 'subset', 'fillna': 'value', 'isin': 'values', 'nlargest': 'n', 'nsmallest': 'n'}
+
 LIB_PARAMS = {
     'scipy.stats.pearsonr': ['x', 'y'], 'scipy.stats.spearmanr': ['a', 'b'], 'scipy.stats.kendalltau': ['x', 'y'],
     'sklearn.feature_selection.mutual_info_classif': ['X', 'y'], 'sklearn.metrics.adjusted_mutual_info_score': ['labels_true', 'labels_pred'],
@@ -397,6 +399,11 @@ class Canon:
             norm = self._normalise_repo_call(ft, args, kws, e)
             if norm is not None:
                 args, kws = norm
+            elif kws and dotted is None and isinstance(f, ast.Attribute) and f.attr in METHOD_PARAMS and not args and any(k_ == METHOD_PARAMS[f.attr] for k_, _ in kws):
+                # obj.groupby(by=K) is obj.groupby(K)  (first parameter of a few pandas methods the rules name)
+                first = METHOD_PARAMS[f.attr]
+                args = [v_ for k_, v_ in kws if k_ == first]
+                kws = tuple(sorted((k_, v_) for k_, v_ in kws if k_ != first))
             elif kws and dotted in LIB_PARAMS and not any(a[0] == 'star' for a in args):
                 # leading parameters of a few library functions the rules name: f(x=a, y=b) is f(a, b)
                 names = LIB_PARAMS[dotted]
